@@ -123,9 +123,9 @@ func c03Eval(w *Worker, c *GCase) {
 		w.Count("reduce_items_compared", 1)
 		if got != want {
 			kind := "lookahead-extra"
-			if got&^want == 0 {
+			if got.AndNot(want).IsZero() {
 				kind = "lookahead-missing"
-			} else if want&^got != 0 {
+			} else if !want.AndNot(got).IsZero() {
 				kind = "lookahead-differs"
 			}
 			w.Violate("C03|"+kind+"|"+key, fmt.Sprintf("%s: grammar [%s]: state with items %s, reduction %s: yaccgo %v, LALR(1) %v",
